@@ -12,7 +12,7 @@ open NotationCore GoSem Chain Algorithm Generated.Ast
 def tsWalkBody : List Stmt := rangeBody (x509_ValidateTimestampingCertChain.body.getD 2 (.opaque ""))
 
 /-- the store of `ValidateTimestampingCertChain` when the loop is entered -/
-def tsStore (L : List Val) : Store := [[("certChain", .list L)]]
+def tsStore (L : List Val) : Store := [[("v0", .list L)]]
 
 section
 variable (sig : Sig) (sigSelf : SigSelf)
@@ -27,9 +27,9 @@ theorem tsWalkStep (n : Nat) (L : List Val) (i : Nat) (c : CertX) (r : List Cert
     (hlen : (L.length : Int) = i + 1 + r.length)
     (hidx : ∀ p' r', r = p' :: r' → L[i + 1]? = some (cvp p')) :
     (fun s => execBlock ⟨"ValidateTimestampingCertChain", prims sig sigSelf, sem (prims sig sigSelf) funcs (n + 3)⟩ s tsWalkBody)
-        ([("cert", cvp c), ("i", .int i)] :: tsStore L)
+        ([("v5", cvp c), ("v4", .int i)] :: tsStore L)
       = match tsIter sig sigSelf i c.1 (r.map (·.1)) with
-        | .ok _ => .next ([("cert", cvp c), ("i", .int i)] :: tsStore L)
+        | .ok _ => .next ([("v5", cvp c), ("v4", .int i)] :: tsStore L)
         | .error e => .ret [site .timestamping e] := by
   obtain ⟨c, ce⟩ := c
   simp only at hc
@@ -134,7 +134,7 @@ theorem loopFrom_cons_tsIter (i : Nat) (c : Cert) (rest : List Cert) :
 theorem tsWalkLoop (n : Nat) (L : List Val) : ∀ (rest : List CertX) (pre : List Val),
     L = pre ++ rest.map cvp → (∀ x ∈ rest, ExtsAgree x.1 x.2) →
     rangeLoop (fun s => execBlock ⟨"ValidateTimestampingCertChain", prims sig sigSelf, sem (prims sig sigSelf) funcs (n + 3)⟩ s tsWalkBody)
-        "i" "cert" pre.length (rest.map cvp) (tsStore L)
+        "v4" "v5" pre.length (rest.map cvp) (tsStore L)
       = match loopFrom .timestamping sig sigSelf none pre.length (rest.map (·.1)) with
         | .ok _ => .next (tsStore L)
         | .error e => .ret [site .timestamping e] := by
